@@ -107,14 +107,26 @@ def run(chk, replay=None):
         hist = [rng.choice(C.HIST_NS) for _ in range(rng.randint(1, 6))]
         pre = [rng.choice(samples)] if samples and rng.random() < 0.6 else []
         other = [X.rand_tree(rng, depth=2) for _ in range(rng.randint(0, 3))]
-        fresh = C.run_child({'trees': trees})
-        after = C.run_child({'history': hist, 'preload': pre, 'trees': other + trees})
-        chk.case(('indep', i), sample={'history': hist, 'preload': [os.path.basename(p) for p in pre]} if i < 2 else None)
+        early = [X.rand_tree(rng, depth=2, allow_bad=False) for _ in range(2)]
+        from odf.namespaces import nsdict
+        known = sorted(nsdict.items())
+        synth = []
+        for _ in range(rng.choice([0, 1, 2])):
+            ns0, p0 = rng.choice(known)
+            synth.append([p0, u'urn:foreign:' + p0])          # a reserved prefix bound to a foreign namespace by the source
+        touch = [ns0 for ns0, p0 in known if any(p0 == sp[0] for sp in synth)] + [rng.choice(known)[0]]
+        fresh = C.run_child({'trees_before': early, 'trees': trees})
+        after = C.run_child({'trees_before': early, 'history': hist, 'preload': pre, 'synthetic': synth, 'touch': touch,
+                             'trees': other + trees})
+        trees = early + trees
+        after['docs'] = after['docs'][:len(early)] + after['docs'][len(early) + len(other):]
+        other = []
+        chk.case(('indep', i), sample={'history': hist, 'preload': [os.path.basename(p) for p in pre], 'synthetic': synth} if i < 2 else None)
         chk.count('history_pairs')
-        C.table_oracle(chk, after['table_after'], {'history': hist, 'preload': pre})
+        C.table_oracle(chk, after['table_after'], {'history': hist, 'preload': pre, 'synthetic': synth, 'touch': touch})
         for k, (a, b) in enumerate(zip(fresh['docs'], after['docs'][len(other):])):
             ok1, t1 = C.wellformed(C.PROLOGUE + a); ok2, t2 = C.wellformed(C.PROLOGUE + b)
-            case = {'history': hist, 'preload': pre, 'tree': trees[k]}
+            case = {'history': hist, 'preload': pre, 'synthetic': synth, 'touch': touch, 'tree': trees[k], 'built_before_history': k < len(early)}
             if not (ok1 and ok2):
                 chk.fail('not-wellformed-after-history', case, 'fresh: %s / after history: %s' % (ok1 or t1, ok2 or t2)); continue
             if X.sort_attrs(t1) != X.sort_attrs(t2):
